@@ -6,3 +6,13 @@ C['C06'] = dict(
  text="Every pair of the integer boundary lattice (0, +-1, +-2, +-7, +-2^k, +-(2^k+-1), k<=60, both range ends) is evaluated by the real interpreter for all 11 operators in the three syntactic forms that select different instructions; TLC validates each answer against exact limb arithmetic (quotient/remainder verified from the observed pair, range errors required outside [-2^60, 2^60-1]). Other types and cross-type pairs are validated against NlValues.BinOp through the reference semantics.",
  ref="DESIGN.md 5 C06",
  note="Trusted: TLC, NlBig's limb arithmetic (self-checked by ASSUME Sanity on the boundary constants), the recorder. Float results that need rounding and non-finite floats are outside the exact domain and skipped (counted).")
+C['C09'] = dict(
+ tech="TLA+ lexical-resolution spec (NlStatic) + reference semantics (NlSem) checked by TLC against recorded runs of name-heavy programs; transformation laws (NlXform: renaming, unused shadowing declaration, undeclared name) checked by TLC on recorded observation pairs",
+ text="Programs drawn over a small identifier pool (the same name reused across blocks, functions and nesting depths, same-scope re-declarations, stray identifiers) are run by the real interpreter and validated against NlStatic+NlSem; each is also paired with its image under consistent renaming, insertion of an unused shadowing declaration in an inner block, and replacement of one use by an undeclared name, and TLC checks the law Obs(T(p)) = Obs(p), resp. ReferenceError with no output.",
+ ref="DESIGN.md 5 C09",
+ note="Trusted: TLC, the recorder, the harness's tree transformations (xform.rs; their images are additionally validated against NlSem). Programs are sampled (seeded).")
+C['C10'] = dict(
+ tech="TLA+ transformation laws (NlXform: wrap-in-function, literal->variable, mirrored operands, prepended literals) checked by TLC on recorded observation pairs of the real eval; both programs of each pair additionally validated against NlSem",
+ text="Closed generated programs are paired with their images under the four implementation-choice transformations; TLC checks Obs(T(p)) = Obs(p) on the two recorded runs of the real interpreter, with no reference interpreter involved in that verdict. The fused variable-op-constant instructions are selected or avoided by literal->variable and mirror; wrap moves globals to locals; prepend shifts and merges constant-pool entries.",
+ ref="DESIGN.md 5 C10",
+ note="Trusted: TLC, the recorder, xform.rs. Side conditions: wrapped programs define no functions; mirrored operands are one literal and one name. Programs are sampled (seeded).")
